@@ -1051,18 +1051,42 @@ func c02EvalLocPathGate(w *World) (*types.Var, string) {
 		return toggle, "EvalLocPath never resolves a path (no call of EvalLocPathInternal)"
 	}
 	depthSubj := ctxKey + ".predicateCount"
-	paritySubj := "(" + ctxKey + "." + toggle.Name() + " % 2)"
+	// toggle % 2 compared with a constant
+	isParity := func(a *pcAtom) bool {
+		cmp, ok := a.v.(*ssa.BinOp)
+		if !ok || a.subj == "" {
+			return false
+		}
+		for _, side := range []ssa.Value{cmp.X, cmp.Y} {
+			rem, ok := side.(*ssa.BinOp)
+			if !ok || rem.Op != token.REM {
+				continue
+			}
+			if two, ok := intConstOf(rem.Y); !ok || two != 2 {
+				continue
+			}
+			if ld, ok := rem.X.(*ssa.UnOp); ok && ld.Op == token.MUL {
+				if fa, ok := ld.X.(*ssa.FieldAddr); ok && fa.X == ssa.Value(f.Params[1]) {
+					st := fa.X.Type().Underlying().(*types.Pointer).Elem().Underlying().(*types.Struct)
+					if st.Field(fa.Field) == toggle {
+						return true
+					}
+				}
+			}
+		}
+		return false
+	}
 	pos := ISet{{1, fullISet[0].hi}}
 	classify := func(a *pcAtom) string {
-		switch a.subj {
-		case depthSubj:
+		if a.subj == depthSubj {
 			if a.set.equal(pos) {
 				return "inpred"
 			}
 			if a.set.equal(pos.complement()) {
 				return "!inpred"
 			}
-		case paritySubj:
+		}
+		if isParity(a) {
 			// the parity test must look at the incremented counter
 			if bo, ok := a.v.(ssa.Instruction); ok && !(incr.Block().Dominates(bo.Block())) {
 				return ""
